@@ -517,6 +517,9 @@ asn1c_lang_C_type_SEQUENCE_def(arg_t *arg, asn1c_ioc_table_and_objset_t *opt_ioc
 		elements = 0;
 		roms_count = 0;
 		aoms_count = 0;
+		/* SEQUENCE { ... } has no members but is still extensible */
+		if(compute_extensions_start(expr) != -1)
+			first_extension = 0;
 	}
 
 	/*
